@@ -194,12 +194,14 @@ def run_part(prop, tier, cfg, wdir, binary, replay, seed, exclude, t0, limit, st
             state["timed_out"] = True
             j["rc"] = None
             return j
+        if state.get("violation_at") and time.time() - state["violation_at"] > 60:
+            j["rc"] = None   # another shard reported a violation a while ago: the verdict is in
+            return j
         with open(os.path.join(sdir, "log.txt"), "w") as lf:
             p = subprocess.Popen(cmd, cwd=sdir, env=env, stdout=lf, stderr=subprocess.STDOUT, preexec_fn=pre)
-            try:
-                p.wait(timeout=left)
-            except subprocess.TimeoutExpired:
-                state["timed_out"] = True
+            deadline = time.time() + left
+
+            def kill():
                 try:
                     os.killpg(p.pid, signal.SIGQUIT)
                     time.sleep(1.0)
@@ -207,7 +209,27 @@ def run_part(prop, tier, cfg, wdir, binary, replay, seed, exclude, t0, limit, st
                 except Exception:
                     pass
                 p.wait()
+            while True:
+                try:
+                    p.wait(timeout=2)
+                    break
+                except subprocess.TimeoutExpired:
+                    pass
+                if time.time() > deadline:
+                    state["timed_out"] = True
+                    kill()
+                    break
+                if not state.get("violation_at") and os.path.exists(os.path.join(sdir, "violations.json")):
+                    state["violation_at"] = time.time()
+                # A shard has written a confirmed violation: the other shards get two more minutes (a changed
+                # tree can wedge a test process in a system call for ever), then the run ends with that verdict.
+                if state.get("violation_at") and time.time() - state["violation_at"] > 120:
+                    j["aborted"] = True
+                    kill()
+                    break
             j["rc"] = p.returncode
+        if os.path.exists(os.path.join(sdir, "violations.json")) and not state.get("violation_at"):
+            state["violation_at"] = time.time()
         return j
 
     from concurrent.futures import ThreadPoolExecutor
@@ -339,7 +361,7 @@ def main():
                 violations.extend(shard_viol)
             else:
                 infra.append("race reports whose stacks lie only in harness files (see %s)" % os.path.join(sdir, "log.txt"))
-        if p.returncode != 0 and not shard_viol:
+        if p.returncode != 0 and not shard_viol and not j.get("aborted"):
             # the process died without recording a violation
             crash = re.search(r"^(panic: .*|fatal error: .*)$", logtxt, re.M)
             if crash and pcfg.get("crash_is_violation") and not timed_out and "VERIF-HARNESS" not in logtxt:
